@@ -431,7 +431,7 @@ def obligations(prop, tier, seed):
             pins = [None]
             if wide:
                 pins = [0, sm] + [rng.getrandbits(f.nbits) & sm for _ in range(4 if tier == "thorough" else 2)]
-            for pin in pins:
+            for pin in list(dict.fromkeys(pins)):
                 o = decode(cpu=mn, mode=mode, n=n, endian=e, tail=t, pin=pin)
                 o.weight = 1 + len(f.fields)
                 obs.append(o)
